@@ -98,6 +98,23 @@ def extra(case, lines, rot):
             bad.append(('line_numbers(offset=%s,start=%d)' % (offset, start), want_nums, nums))
         if len(txt) != len(exp):
             bad.append(('numbered_line_count', len(exp), len(txt)))
+    # numbers without prompts: every displayed source line carries its position; an empty executable line at the END of a part
+    # (a bare "..." terminator) has no text to show and is not displayed, one in the middle is
+    exec_of = dict(zip(exp_idx, exp_exec))
+    shown = []
+    for p in case['parts']:
+        if p[0] != 'code':
+            continue
+        js = [j for j in range(p[1], p[2] + 1) if j in exec_of]
+        while js and not exec_of[js[-1]].strip():
+            js.pop()
+        shown += js
+    for offset in (False, True):
+        txt = dt.format_src(linenos=True, colored=False, want=False, prefix=False, offset_linenos=offset).split('\n')
+        nums = [int(m.group(1)) for m in (re.match(r'^\s*(\d+)( |$)', ln) for ln in txt) if m]
+        want_nums = [j + (start - 1 if offset else 0) for j in shown]
+        if nums != want_nums:
+            bad.append(('line_numbers_without_prompts(offset=%s,start=%d)' % (offset, start), want_nums, nums))
     # the same docstring as the freeform collector builds it (all groups lumped into one doctest, prose dropped): the numbers
     # are positions counted from the first prompt line / in the file
     from xdoctest import core
